@@ -98,6 +98,40 @@ def p_perturb(b, rng, factor):
     return True
 
 
+def p_drop_primitive(b, rng, which):
+    """a shell with its most diffuse ('last') or tightest ('first') primitive removed - every contraction keeps a non-zero coefficient"""
+    cands = []
+    for el in b['elements'].values():
+        for sh in el.get('electron_shells', []):
+            xs = [Decimal(x.strip()) for x in sh['exponents']]
+            if len(xs) < 2:
+                continue
+            k = xs.index(min(xs) if which == 'last' else max(xs))
+            if all(any(Decimal(c.strip()) != 0 for i, c in enumerate(col) if i != k) for col in sh['coefficients']):
+                cands.append((sh, k))
+    if not cands:
+        return False
+    sh, k = rng.choice(cands)
+    del sh['exponents'][k]
+    for col in sh['coefficients']:
+        del col[k]
+    return True
+
+
+def p_perturb_contraction(b, rng, first):
+    """one coefficient of the first / last contraction of a shell that has several"""
+    shs = [sh for el in b['elements'].values() for sh in el.get('electron_shells', []) if len(sh['coefficients']) >= 2]
+    rng.shuffle(shs)
+    for sh in shs:
+        col = sh['coefficients'][0 if first else -1]
+        idx = [i for i, c in enumerate(col) if Decimal(c.strip()) != 0]
+        if idx:
+            i = rng.choice(idx)
+            col[i] = scale_num(col[i], '1.001')
+            return True
+    return False
+
+
 def p_drop_shell(b, rng):
     els = [el for el in b['elements'].values() if len(el.get('electron_shells', [])) >= 2]
     if not els:
@@ -208,6 +242,10 @@ PERTURBATIONS = [
     ('perturb-above-tol', lambda b, r: p_perturb(b, r, '1.00001'), False, False),
     ('perturb-below-tol', lambda b, r: p_perturb(b, r, '1.0000001'), False, True),
     ('drop-shell', p_drop_shell, False, False), ('duplicate-shell', p_dup_shell, False, False),
+    ('drop-most-diffuse-primitive', lambda b, r: p_drop_primitive(b, r, 'last'), False, False),
+    ('drop-tightest-primitive', lambda b, r: p_drop_primitive(b, r, 'first'), False, False),
+    ('perturb-first-contraction', lambda b, r: p_perturb_contraction(b, r, True), False, False),
+    ('perturb-last-contraction', lambda b, r: p_perturb_contraction(b, r, False), False, False),
     ('am-change', p_am_change, False, False), ('drop-element', p_drop_element, False, False),
     ('ecp-coefficient', p_ecp_coef, False, False), ('ecp-r-exponent', p_ecp_rexp, False, False),
     ('ecp-electrons', p_ecp_electrons, False, False), ('ecp-dropped', p_ecp_drop, False, False),
@@ -233,15 +271,37 @@ def compare_pair(ctx, a, b, label, pname, want0, wanttol):
                           'compare_basis after %s with rel_tol=%s answers %s, expected %s' % (pname, tol, r, want), replay)
 
 
+def report_pair(ctx, a, b, label, pname, want):
+    """the report-style comparison (curate/compare_report.py: basis_comparison_report, which compare_basis_files /
+    compare_basis_sets / compare_basis_against_file and the bsecurate commands return): it compares the canonically sorted
+    shells position by position at zero tolerance, so its verdict must be True for the same data (also re-notated) and False
+    after every change that compare_basis must see (any changed value, sign, count, momentum, element, ECP term)"""
+    import contextlib
+    import io
+    from basis_set_exchange.curate import compare_report
+    for ug in (False, True):
+        with contextlib.redirect_stdout(io.StringIO()):
+            r = impl.call(compare_report.basis_comparison_report, copy.deepcopy(a), copy.deepcopy(b), ug)
+        ctx.case((label, pname, 'report', ug), pname != 'identity', 'report:' + pname)
+        if r != ('ok', want):
+            ctx.violation('curate.basis_comparison_report', pname + (':uncontract_general' if ug else ''),
+                          'basis_comparison_report(uncontract_general=%s) after %s answers %s, expected %s' % (ug, pname, r, want),
+                          {'kind': 'compare', 'label': label, 'perturbation': pname, 'report': True,
+                           'a': a if len(str(a)) < 12000 else None, 'b': b if len(str(b)) < 12000 else None})
+
+
 def pairs_for(ctx, base, label, rng):
     from basis_set_exchange import curate
     compare_pair(ctx, base, copy.deepcopy(base), label, 'identity', True, True)
+    report_pair(ctx, base, copy.deepcopy(base), label, 'identity', True)
     for pname, f, want0, wanttol in PERTURBATIONS:
         b = copy.deepcopy(base)
         if not f(b, rng):
             ctx.dist['perturbation-not-applicable'] += 1
             continue
         compare_pair(ctx, base, b, label, pname, want0, wanttol)
+        if pname != 'reorder':
+            report_pair(ctx, base, b, label, pname, want0)
         # the verdict may not depend on which side carries the change
         compare_pair(ctx, b, base, label, pname + ':swapped', want0, wanttol)
         if pname in ('sign-flip', 'drop-shell'):
